@@ -46,7 +46,12 @@ ASSUMPTIONS = [
     "the member sets of TlvType, FilestoreActionCode and FilestoreResponseStatusCode are tied by exhaustive sweeps of the "
     "type octet and of the action/status octet (all 256 values) through the decoders, in addition to the named constants",
     "a Python str file name is represented by its UTF-8 octets; names that are not encodable (lone surrogates) are outside the model",
-    "FileStore*Tlv cache their generic TLV on first pack(); attributes are not reassigned after pack() (no setter exists)",
+    "live-object histories (op 1060) observe ONE object: construction by every path, then up to 12 operations (plain attribute "
+    "assignment, the tlv_type setter, edits of the wrapped / cached CfdpTlv and of the filestore message LV, refused assignments, "
+    "pack / value / generate_tlv); aliasing beyond that object (the CfdpTlv handed to from_tlv stays shared with the wrapper "
+    "classes, getters hand out internal buffers) is by design and only watched from the caller's side by the adapter",
+    "FaultHandlerOverrideTlv.condition_code / handler_code are read-outs of the TLV built at construction / decoding: assigning "
+    "them does not change pack() (judged a design decision, modelled as such)",
 ]
 TRUSTED = []
 EXPLORED_ONLY = []
